@@ -146,6 +146,11 @@ def run(ctx):
         for e, v in conds:
             if e == ("discr", ep):
                 epstate = "Some" if v == 1 else "None"
+            elif e[0] == "bin" and e[1] in ("Eq", "Ne") and ("discr", ep) in (e[2], e[3]) and \
+                    (e[3] if e[2] == ("discr", ep) else e[2])[0] == "int" and isinstance(v, int):
+                k = (e[3] if e[2] == ("discr", ep) else e[2])[1]
+                holds = (e[1] == "Eq") == bool(v)           # discr == k holds on this path
+                epstate = "Some" if (k == 1) == holds else "None"
             elif e[0] == "discr" and e[1][0] == "next":
                 if v == 1:
                     loop = e[1][1]
